@@ -121,7 +121,8 @@ let () =
              let data = List.init nt (fun k -> if k < List.length data then List.nth data k else 0.0) in
              let g = { gr_mult = z_of_int mult; gr_nx = nx; gr_lower = gl; gr_upper = List.map (fun ((_, u), _) -> u) ib;
                        gr_width = gw; gr_per = List.map snd ib; gr_data = data } in
-             if w.(0) = "WRITE" then print_toks (write_restart g)
+             if !p < Array.length w && w.(!p) = "GRID" then print_grid g
+             else if w.(0) = "WRITE" then print_toks (write_restart g)
              else out (read_restart fops cvs g (toks_after ()))
            end else begin
              let mult = ni () in let nd = ni () in
